@@ -46,7 +46,7 @@ def line_to_crit(line):
 
 
 def budget(tier):
-    return 8000 if tier == 'quick' else 80000
+    return 8000 if tier == 'quick' else 250000
 
 
 @st.composite
